@@ -478,6 +478,10 @@ func (e *engine) check(prop string) *checkResult {
 	if e.w.db.GlobalFrame[prop] {
 		res.obls = append(res.obls, e.globalFrameObls(prop, res)...)
 	}
+	if e.w.db.Discipline[prop] {
+		res.obls = append(res.obls, e.atomicObls(prop)...)
+		res.obls = append(res.obls, e.movedObls(prop)...)
+	}
 	// lemmas
 	for _, lm := range e.w.db.Lemmas {
 		if !strings.HasPrefix(lm.Label, prop+".") {
